@@ -178,7 +178,7 @@ def gen_axis(rng, n, fam):
             a, h = rng.choice([0.0, -1.0, 0.1, rng.uniform(-10, 10)]), rng.choice([0.1, 0.3, 1 / 3, 1e-3, 2.5, 1.0, 1e-9])
             xs = [a + i * h for i in range(n)]
         elif fam == "rand_int":
-            xs = sorted(rng.sample(range(-60, 60), n))
+            xs = sorted(rng.sample(range(-max(60, 3 * n), max(60, 3 * n)), n))
         elif fam == "rand_float":
             xs = sorted(rng.uniform(-100, 100) for _ in range(n))
         elif fam == "wild":
@@ -193,7 +193,7 @@ def gen_axis(rng, n, fam):
         elif fam == "outlier":
             big = rng.choice([1e18, 2.0 ** 60, 1e300, 1e30, 2 ** 60, 10 ** 18, 1e15, 3e16])
             palette = [-5, -3, -1, 0, 1, 2, 3, 4, 7, -5.5, 0.25, 0.5, 1.5, 2.5, 1e-3, 1e-300]
-            small = sorted(rng.sample(palette if n - 1 <= len(palette) else list(range(-50, 50)), n - 1))
+            small = sorted(rng.sample(palette if n - 1 <= len(palette) else list(range(-max(50, n), max(50, n))), n - 1))
             if n >= 4 and rng.random() < 0.25:
                 xs = [-big] + small[:n - 2] + [big]
             elif rng.random() < 0.6:
@@ -208,7 +208,7 @@ def gen_axis(rng, n, fam):
                     x = math.nextafter(x, INF)
                 xs.append(x)
         elif fam == "mixed":
-            base = sorted(rng.sample(range(-30, 30), n))
+            base = sorted(rng.sample(range(-max(30, n), max(30, n)), n))
             xs = []
             for b in base:
                 r = rng.random()
@@ -220,7 +220,7 @@ def gen_axis(rng, n, fam):
             if kind < 0.4:
                 xs = [-2 ** k] + list(range(1, n))
             elif kind < 0.7:
-                xs = sorted(rng.sample(range(2 ** k - 20, 2 ** k + 20), n))
+                xs = sorted(rng.sample(range(2 ** k - max(20, n), 2 ** k + max(20, n)), n))
             else:
                 xs = list(range(-n + 2, 1)) + [2 ** k]
                 xs = xs[-n:]
@@ -246,7 +246,7 @@ def coord_pool(rng, xs, extra=6):
         if isinstance(a, int) and isinstance(b, int) and b - a >= 2:
             pool.append(rng.randint(a + 1, b - 1))
     lo, hi = xs[0], xs[-1]
-    pool += [-1e300, 1e300, -10 ** 30, 10 ** 30, lo - 1, hi + 1]
+    pool += [-1e300, 1e300, -10 ** 30, 10 ** 30, lo - 1, hi + 1, INF, -INF]
     try:
         flo, fhi = float(lo), float(hi)
         for _ in range(extra):
@@ -256,7 +256,47 @@ def coord_pool(rng, xs, extra=6):
                 pool.append(rng.uniform(float(xs[j]), float(xs[j + 1])))
     except OverflowError:
         pass
-    return [p for p in pool if isinstance(p, int) or math.isfinite(p)]
+    return [p for p in pool if isinstance(p, int) or not math.isnan(p)]
+
+
+def _range_of(xs):
+    """the range object with exactly these elements, if there is one"""
+    if len(xs) >= 2 and all(type(x) is int for x in xs):
+        h = xs[1] - xs[0]
+        if h > 0 and all(b - a == h for a, b in zip(xs, xs[1:])):
+            return range(xs[0], xs[-1] + h, h)
+    return None
+
+
+def _pick_kind(rng, xs):
+    r = rng.random()
+    if r < 0.68:
+        return "list"
+    if r < 0.88 or _range_of(xs) is None:
+        return "tuple"
+    return "range"
+
+
+def _as_kind(xs, kind):
+    if kind == "tuple":
+        return tuple(xs)
+    if kind == "range":
+        r = _range_of(xs)
+        return r if r is not None else list(xs)
+    return list(xs)
+
+
+def build_edges(case):
+    """the real `edges` argument: the numbers of case['edges'] in the containers case['axes_as'] / case['edges_as']
+    (lists unless stated)"""
+    edges = case["edges"]
+    kinds = case.get("axes_as")
+    if not kinds:
+        return copy.deepcopy(edges)
+    if _is_axes(edges):
+        axes = [_as_kind(a, k) for a, k in zip(edges, kinds)]
+        return tuple(axes) if case.get("edges_as") == "tuple" else axes
+    return _as_kind(edges, kinds[0])
 
 
 WEIGHTS = [1, 1, 1, 2, 3, 5, -1, -2, 0, 7, 10 ** 9, 0.5, 0.25, 1.5, -0.5, 2.0, 3 / 1024, 1000.125]
@@ -264,19 +304,23 @@ WEIGHTS = [1, 1, 1, 2, 3, 5, -1, -2, 0, 7, 10 ** 9, 0.5, 0.25, 1.5, -0.5, 2.0, 3
 
 def gen_bin1d_case(rng, tier):
     r = rng.random()
+    long = False
     if r < 0.04:
         n = 1
-    elif r < 0.10 and tier == "thorough":
+    elif r < 0.08:
+        # longer than any internal constant: the search is linear in the worst case (one huge outlier)
+        n, long = rng.randint(70, 400), True
+    elif r < 0.14 and tier == "thorough":
         n = rng.randint(13, 40)
     else:
         n = rng.randint(2, 12)
-    fam = rng.choice(FAMILIES)
+    fam = rng.choice(("outlier", "outlier", "wild", "rand_int", "uni_float", "bigint")) if long else rng.choice(FAMILIES)
     if n == 1:
         xs = [rng.choice([0, 1.5, -2, 10 ** 20])]
     else:
         xs = gen_axis(rng, n, fam)
     mono = True
-    if n >= 3 and rng.random() < 0.06:
+    if 3 <= n <= 40 and rng.random() < 0.06:
         # outside the precondition: correspondence only
         xs = list(xs)
         rng.shuffle(xs)
@@ -284,24 +328,36 @@ def gen_bin1d_case(rng, tier):
             xs[rng.randrange(n)] = xs[rng.randrange(n)]
         mono = _strict(xs)
         fam = "nonmono" if not mono else fam
-    pool = coord_pool(rng, sorted(xs)) if n > 1 else [xs[0], xs[0] - 1, xs[0] + 1] + _nbrs(xs[0])
+    if long:
+        inner = [x for x in xs[1:-1]]
+        pool = [xs[0], xs[-1], xs[-2], xs[1], INF, -INF] + rng.sample(inner, 4)
+        for _ in range(4):
+            j = rng.randrange(n - 1)
+            try:
+                pool.append(xs[j] + (xs[j + 1] - xs[j]) / 2)
+            except OverflowError:
+                pass
+        pool += _nbrs(xs[-2])[:2]
+    else:
+        pool = coord_pool(rng, sorted(xs)) if n > 1 else [xs[0], xs[0] - 1, xs[0] + 1, INF, -INF] + _nbrs(xs[0])
     cap = 70 if tier == "quick" else 36
     if len(pool) > cap:
         keep = [p for p in pool if p in xs][:cap]
         rest = [p for p in pool if p not in xs]
         rng.shuffle(rest)
         pool = keep + rest[:cap - len(keep)]
-    return {"op": "bin1d", "arr": xs, "vals": pool, "fam": fam, "full": n <= 12 and rng.random() < 0.5}
+    return {"op": "bin1d", "arr": xs, "vals": pool, "fam": fam, "full": n <= 12 and rng.random() < 0.5,
+            "axes_as": [_pick_kind(rng, xs)]}
 
 
 def _dims_for(rng, tier):
     r = rng.random()
-    return 1 if r < 0.4 else 2 if r < 0.75 else 3
+    return 1 if r < 0.4 else 2 if r < 0.74 else 3 if r < 0.97 else 4
 
 
 def gen_hist_case(rng, tier, elem=False):
     dim = _dims_for(rng, tier)
-    cap = {1: 12, 2: 12, 3: 6}[dim]
+    cap = {1: 12, 2: 12, 3: 6, 4: 4}[dim]
     axes, fams = [], []
     for _ in range(dim):
         fam = rng.choice(FAMILIES)
@@ -317,7 +373,9 @@ def gen_hist_case(rng, tier, elem=False):
             axes[k] = axes[k][:len(axes[k]) - 2] if len(axes[k]) > 3 else axes[k][:2]
     flat = dim == 1 and rng.random() < 0.7
     edges = axes[0] if flat else axes
-    case = {"op": "elem" if elem else "hist", "edges": edges, "fam": "+".join(fams)}
+    case = {"op": "elem" if elem else "hist", "edges": edges, "fam": "+".join(fams),
+            "axes_as": [_pick_kind(rng, a) for a in axes], "edges_as": "tuple" if rng.random() < 0.15 else "list",
+            "full": dim <= 2 and rng.random() < 0.15}
     # initial content
     r = rng.random()
     shape = [len(a) - 1 for a in axes]
@@ -353,6 +411,7 @@ def gen_hist_case(rng, tier, elem=False):
             if rng.random() < 0.1:
                 edges = []
         case["edges"] = edges
+        case["axes_as"] = None
     elif r < 0.06:
         bad = "bins"
         kind = rng.random()
@@ -366,8 +425,10 @@ def gen_hist_case(rng, tier, elem=False):
             s2 = list(shape)
             s2[-1] = max(0, s2[-1] - 1)
             case["bins"] = _rand_bins(rng, s2)                     # inner axis too short
-        else:
+        elif kind < 0.93:
             case["bins"] = _rand_bins(rng, [0] if (dim == 1 and not flat) else shape)
+        else:
+            case["bins"] = 5                                       # a bare number: len(bins) is a TypeError
     case["bad"] = bad
     # fills
     pools = [coord_pool(rng, a, extra=3) for a in axes]
